@@ -51,8 +51,12 @@ def run_one(item, props=None, tier='quick'):
         results = {}
         for p in (props or [prop]):
             env = dict(os.environ, FSIC_VERIF_REPO=tmp, VERIF_NPROC=os.environ.get('SELFTEST_NPROC', '4'))
-            r = subprocess.run([os.path.join(ROOT, 'check'), p, '--tier', tier, '--no-evidence'],
-                               cwd=ROOT, env=env, capture_output=True, text=True)
+            try:
+                r = subprocess.run([os.path.join(ROOT, 'check'), p, '--tier', tier, '--no-evidence'],
+                                   cwd=ROOT, env=env, capture_output=True, text=True, timeout=1500)
+            except subprocess.TimeoutExpired:
+                results[p] = {'exit': 2, 'keys': [], 'stderr': 'timeout after 1500 s'}
+                continue
             keys = [l.strip()[4:] for l in r.stdout.splitlines() if l.strip().startswith('key=')]
             results[p] = {'exit': r.returncode, 'keys': keys[:6],
                           'stderr': r.stderr[-300:] if r.returncode == 2 else ''}
